@@ -272,6 +272,143 @@ theorem reread_eqv (fm : Bool) (m : M) (hr : InRange m) (hn : Normal m) : Eqv (r
         · exact (n1 (by simpa using hip)).2.2
       simp only [M.vTpDst, hts, vis_true]
 
+/-! ### `flow_mod=True` for every match: the decoded object is `fix m` -/
+
+/-- what `fix` leaves alone -/
+theorem fix_keeps (m : M) :
+    (fix m).w.in_port = m.w.in_port ∧ (fix m).w.dl_vlan = m.w.dl_vlan ∧ (fix m).w.dl_src = m.w.dl_src ∧
+    (fix m).w.dl_dst = m.w.dl_dst ∧ (fix m).w.dl_type = m.w.dl_type ∧ (fix m).w.dl_vlan_pcp = m.w.dl_vlan_pcp ∧
+    (fix m).w.hi = m.w.hi ∧ (fix m).in_port = m.in_port ∧ (fix m).dl_src = m.dl_src ∧ (fix m).dl_dst = m.dl_dst ∧
+    (fix m).dl_vlan = m.dl_vlan ∧ (fix m).dl_vlan_pcp = m.dl_vlan_pcp ∧ (fix m).dl_type = m.dl_type := by
+  unfold fix
+  split
+  · split <;> simp
+  · split <;> simp
+
+/-- what `fix` does to the conditional fields, by prerequisite case -/
+theorem fix_facts (m : M) :
+    (isIP m.vDlType = false → (fix m).w.nw_tos = true ∧ (fix m).w.tp_src = true ∧ (fix m).w.tp_dst = true) ∧
+    (isIP m.vDlType = false → isARP m.vDlType = false →
+      (fix m).w.nw_proto = true ∧ (fix m).w.nw_src = 32 ∧ (fix m).w.nw_dst = 32) ∧
+    (isIP m.vDlType = true → isTP m.vProto = false → (fix m).w.tp_src = true ∧ (fix m).w.tp_dst = true) ∧
+    (isIP m.vDlType = true → (fix m).w.nw_tos = m.w.nw_tos ∧ (fix m).nw_tos = m.nw_tos) ∧
+    ((isIP m.vDlType || isARP m.vDlType) = true →
+      (fix m).w.nw_proto = m.w.nw_proto ∧ (fix m).nw_proto = m.nw_proto ∧ (fix m).w.nw_src = m.w.nw_src ∧
+      (fix m).nw_src = m.nw_src ∧ (fix m).w.nw_dst = m.w.nw_dst ∧ (fix m).nw_dst = m.nw_dst) ∧
+    ((isIP m.vDlType && isTP m.vProto) = true →
+      (fix m).w.tp_src = m.w.tp_src ∧ (fix m).tp_src = m.tp_src ∧ (fix m).w.tp_dst = m.w.tp_dst ∧
+      (fix m).tp_dst = m.tp_dst) := by
+  unfold fix
+  by_cases hip : isIP m.vDlType = true
+  · by_cases htp : isTP m.vProto = true
+    · simp [hip, htp]
+    · have htp' : isTP m.vProto = false := by simpa using htp
+      simp [hip, htp']
+  · have hip' : isIP m.vDlType = false := by simpa using hip
+    by_cases harp : isARP m.vDlType = true
+    · simp [hip', harp]
+    · have harp' : isARP m.vDlType = false := by simpa using harp
+      simp [hip', harp']
+
+/-- the wildcard word decoded in `flow_mod` mode is that of `fix m`, for every in-range match -/
+theorem reread_w_fm (m : M) (hr : InRange m) : (reread true m).w = (fix m).w := by
+  obtain ⟨hs, hd, hh, _⟩ := hr
+  have hnorm : ∀ w : W, w.nw_src ≤ 32 → w.nw_dst ≤ 32 → normalize w = w := by
+    intro w a b
+    apply W.ext' <;> simp [normalize] <;> omega
+  obtain ⟨a, b, _⟩ := wire_bounds m hs hd hh
+  simp only [reread, fromVals, wcOf, ↓reduceIte]
+  rw [ofNat_toNat (wire m) a b]
+  by_cases hip : isIP m.vDlType = true
+  · have ho : orZero m.vDlType = 0x800 := by rw [isIP_orZero _ hip]; rfl
+    by_cases htp : isTP m.vProto = true
+    · simp only [wire, unwire, fix, hip, htp, ho, Bool.true_or, ↓reduceIte, isTP_orZero]
+      exact hnorm _ hs hd
+    · have htp' : isTP m.vProto = false := by simpa using htp
+      simp only [wire, unwire, fix, hip, htp', ho, Bool.true_or, ↓reduceIte, isTP_orZero, Bool.false_eq_true]
+      apply W.ext' <;> simp [normalize] <;> omega
+  · have hip' : isIP m.vDlType = false := by simpa using hip
+    by_cases harp : isARP m.vDlType = true
+    · have ho : orZero m.vDlType = 0x806 := by rw [isARP_orZero _ harp]; rfl
+      simp only [wire, unwire, fix, hip', harp, ho, Bool.false_eq_true, ↓reduceIte]
+      apply W.ext' <;> simp [normalize] <;> omega
+    · have harp' : isARP m.vDlType = false := by simpa using harp
+      obtain ⟨o1, o2⟩ := other_orZero _ hip' harp'
+      simp only [wire, unwire, fix, hip', harp', Bool.false_eq_true, ↓reduceIte, o1, o2]
+      split <;> (apply W.ext' <;> simp [normalize])
+
+/-- **flow_mod mode, every match**: `unpack(pack(m, flow_mod=True), flow_mod=True) == fix(m)` -/
+theorem reread_eqv_fm (m : M) (hr : InRange m) : Eqv (reread true m) (fix m) := by
+  have hw := reread_w_fm m hr
+  obtain ⟨k0, k1, k2, k3, k4, k5, _, v0, v1, v2, v3, v4, v5⟩ := fix_keeps m
+  obtain ⟨f1, f2, f3, f4, f5, f6⟩ := fix_facts m
+  refine ⟨hw, ?_, ?_, ?_, ?_, ?_, ?_, ?_, ?_, ?_, ?_, ?_, ?_⟩
+  · show vis (reread true m).w.in_port (orZero m.vInPort) = vis (fix m).w.in_port (fix m).in_port
+    rw [hw, k0, v0]; exact vis_orZero _ _
+  · show vis (reread true m).w.dl_src (orZero m.vDlSrc) = vis (fix m).w.dl_src (fix m).dl_src
+    rw [hw, k2, v1]; exact vis_orZero _ _
+  · show vis (reread true m).w.dl_dst (orZero m.vDlDst) = vis (fix m).w.dl_dst (fix m).dl_dst
+    rw [hw, k3, v2]; exact vis_orZero _ _
+  · show vis (reread true m).w.dl_vlan (orZero m.vDlVlan) = vis (fix m).w.dl_vlan (fix m).dl_vlan
+    rw [hw, k1, v3]; exact vis_orZero _ _
+  · show vis (reread true m).w.dl_vlan_pcp (orZero m.vPcp) = vis (fix m).w.dl_vlan_pcp (fix m).dl_vlan_pcp
+    rw [hw, k5, v4]; exact vis_orZero _ _
+  · show vis (reread true m).w.dl_type (orZero m.vDlType) = vis (fix m).w.dl_type (fix m).dl_type
+    rw [hw, k4, v5]; exact vis_orZero _ _
+  · show vis (reread true m).w.nw_tos (if isIP m.vDlType then orZero m.vTos else 0) = vis (fix m).w.nw_tos (fix m).nw_tos
+    rw [hw]
+    by_cases h : isIP m.vDlType = true
+    · obtain ⟨a, b⟩ := f4 h
+      simp only [h, ↓reduceIte, a, b]; exact vis_orZero _ _
+    · have h' : isIP m.vDlType = false := by simpa using h
+      simp only [(f1 h').1, vis_true]
+  · show vis (reread true m).w.nw_proto (if isIP m.vDlType || isARP m.vDlType then orZero m.vProto else 0)
+      = vis (fix m).w.nw_proto (fix m).nw_proto
+    rw [hw]
+    by_cases h : (isIP m.vDlType || isARP m.vDlType) = true
+    · obtain ⟨a, b, _⟩ := f5 h
+      simp only [h, ↓reduceIte, a, b]; exact vis_orZero _ _
+    · have h' : isIP m.vDlType = false ∧ isARP m.vDlType = false := by simpa using h
+      simp only [(f2 h'.1 h'.2).1, vis_true]
+  · show vis (decide (32 ≤ (reread true m).w.nw_src)) (if isIP m.vDlType || isARP m.vDlType then orZero m.vNwSrc else 0)
+      = vis (decide (32 ≤ (fix m).w.nw_src)) (fix m).nw_src
+    rw [hw]
+    by_cases h : (isIP m.vDlType || isARP m.vDlType) = true
+    · obtain ⟨_, _, a, b, _, _⟩ := f5 h
+      simp only [h, ↓reduceIte, a, b]; exact vis_orZero _ _
+    · have h' : isIP m.vDlType = false ∧ isARP m.vDlType = false := by simpa using h
+      simp [(f2 h'.1 h'.2).2.1, vis]
+  · show vis (decide (32 ≤ (reread true m).w.nw_dst)) (if isIP m.vDlType || isARP m.vDlType then orZero m.vNwDst else 0)
+      = vis (decide (32 ≤ (fix m).w.nw_dst)) (fix m).nw_dst
+    rw [hw]
+    by_cases h : (isIP m.vDlType || isARP m.vDlType) = true
+    · obtain ⟨_, _, _, _, a, b⟩ := f5 h
+      simp only [h, ↓reduceIte, a, b]; exact vis_orZero _ _
+    · have h' : isIP m.vDlType = false ∧ isARP m.vDlType = false := by simpa using h
+      simp [(f2 h'.1 h'.2).2.2, vis]
+  · show vis (reread true m).w.tp_src (if isIP m.vDlType && isTP m.vProto then orZero m.vTpSrc else 0)
+      = vis (fix m).w.tp_src (fix m).tp_src
+    rw [hw]
+    by_cases h : (isIP m.vDlType && isTP m.vProto) = true
+    · obtain ⟨a, b, _, _⟩ := f6 h
+      simp only [h, ↓reduceIte, a, b]; exact vis_orZero _ _
+    · have hts : (fix m).w.tp_src = true := by
+        by_cases hip : isIP m.vDlType = true
+        · exact (f3 hip (by simpa [hip] using h)).1
+        · exact (f1 (by simpa using hip)).2.1
+      simp only [hts, vis_true]
+  · show vis (reread true m).w.tp_dst (if isIP m.vDlType && isTP m.vProto then orZero m.vTpDst else 0)
+      = vis (fix m).w.tp_dst (fix m).tp_dst
+    rw [hw]
+    by_cases h : (isIP m.vDlType && isTP m.vProto) = true
+    · obtain ⟨_, _, a, b⟩ := f6 h
+      simp only [h, ↓reduceIte, a, b]; exact vis_orZero _ _
+    · have hts : (fix m).w.tp_dst = true := by
+        by_cases hip : isIP m.vDlType = true
+        · exact (f3 hip (by simpa [hip] using h)).2
+        · exact (f1 (by simpa using hip)).2.2
+      simp only [hts, vis_true]
+
 /-- `pack` looks at an object only through its wildcards and visible values: `==` objects pack to the same bytes -/
 theorem pack_congr (fm : Bool) (a b : M) (h : Eqv a b) : pack fm a = pack fm b := by
   obtain ⟨h0, h1, h2, h3, h4, h5, h6, h7, h8, h9, h10, h11, h12⟩ := h
